@@ -54,7 +54,8 @@ Section Scale.
   Record OrdLaws : Prop := {
     ltb_irrefl : forall a, ltb a a = false;
     ltb_trans : forall a b c, ltb a b = true -> ltb b c = true -> ltb a c = true;
-    eqb_eq : forall a b, eqb a b = true -> a = b
+    eqb_eq : forall a b, eqb a b = true -> a = b;
+    eqb_refl : forall a, eqb a a = true
   }.
 
   Hypothesis SL : ScaleLaws.
@@ -357,10 +358,11 @@ Section Scale.
   (* [vec]: the learnt function returns vectors (true) or scalars (false) *)
   Variable vec : bool.
   Definition Inv s : Prop :=
-    (forall z, In z (nb s) -> in_bounds P z = true) /\
+    (forall z, In z (nb s) -> dget z (data s) <> None) /\
     (forall z yz, In z (nb s) -> dget z (data s) = Some yz ->
                   absorbed (bby s) yz /\ sy s = spread (bby s)) /\
-    (nb s = [] \/ bshape (bby s) = Some vec).
+    (nb s = [] \/ bshape (bby s) = Some vec) /\
+    (forall e, In e (data s) -> is_vec (snd e) = vec).
 
   Lemma point_at_sc l i k : point_at sc_P (map sx_ l) i k = option_map sx_ (point_at P l i k).
   Proof.
@@ -387,7 +389,7 @@ Section Scale.
   Lemma get_loss_sc s a b : Inv s ->
     get_loss sc_P (sc_st s) (sx_ a) (sx_ b) = get_loss P s a b.
   Proof.
-    intros (_ & HI & _). unfold L1D.get_loss. cbn [dx_eps sc_P nn].
+    intros (_ & HI & _ & _). unfold L1D.get_loss. cbn [dx_eps sc_P nn].
     rewrite (sx_sub SL), (sx_ltb SL). destruct (ltb (sub b a) (dx_eps P)); [reflexivity|].
     replace (nb (sc_st s)) with (map sx_ (nb s)) by reflexivity.
     replace (data (sc_st s)) with (map sc_d (data s)) by reflexivity.
@@ -447,7 +449,7 @@ Section Scale.
   Lemma same_core_trans s1 s2 s3 : same_core s1 s2 -> same_core s2 s3 -> same_core s1 s3.
   Proof. intros (A&B&C&D) (A'&B'&C'&D'). repeat split; congruence. Qed.
   Lemma Inv_core s s' : same_core s s' -> Inv s -> Inv s'.
-  Proof. intros (A&B&C&D) (H1&H2&H3). unfold Inv. rewrite A, B, C, D. split; [exact H1|split; [exact H2|exact H3]]. Qed.
+  Proof. intros (A&B&C&D) (H1&H2&H3&H4). unfold Inv. rewrite A, B, C, D. split; [exact H1|split; [exact H2|split; [exact H3|exact H4]]]. Qed.
   Lemma with_los_core s (l lc : list (ival * num)) : same_core s (with_los s l lc).
   Proof. repeat split. Qed.
 
@@ -788,23 +790,38 @@ Section Scale.
   Lemma t_fin_sc s : t_fin (sc_st s) = sc_st (t_fin s).
   Proof. reflexivity. Qed.
 
-  Lemma Inv_t0 s x y : Inv s -> dget x (data s) = None -> in_bounds P x = false -> Inv (t0 s x y).
+  Lemma In_dset e x y (d : list (num * Y)) : In e (dset x y d) -> e = (x, y) \/ In e d.
   Proof.
-    intros (H1 & H2 & H3) Hd Hb. unfold Inv, t0. cbn [data nb bby sy].
-    split; [exact H1|split; [|exact H3]]. intros z yz Hz. rewrite (@dget_dset_fresh x y (data s) z Hd).
-    destruct (eqb z x) eqn:E; [|now apply H2].
-    apply (eqb_eq OL) in E. subst z. rewrite (H1 x Hz) in Hb. discriminate.
+    induction d as [|[k v] d IH]; cbn [L1D.dset In].
+    - intros [H|[]]; auto.
+    - destruct (ltb x k); [intros [H|H]; auto|].
+      destruct (eqb x k); [intros [H|H]; auto|].
+      intros [H|H]; [auto|]. destruct (IH H); auto.
   Qed.
 
-  Lemma Inv_t2 s x y : Inv s -> dget x (data s) = None -> in_bounds P x = true -> is_vec y = vec ->
+  Lemma Inv_t0 s x y : Inv s -> dget x (data s) = None -> is_vec y = vec -> Inv (t0 s x y).
+  Proof.
+    intros (H1 & H2 & H3 & H4) Hd Hv. unfold Inv, t0. cbn [data nb bby sy].
+    assert (Hne : forall z, In z (nb s) -> eqb z x = false).
+    { intros z Hz. destruct (eqb z x) eqn:E; [|reflexivity].
+      apply (eqb_eq OL) in E. subst z. now destruct (H1 x Hz). }
+    split; [|split; [|split; [exact H3|]]].
+    - intros z Hz. rewrite (@dget_dset_fresh x y (data s) z Hd), (Hne z Hz). now apply H1.
+    - intros z yz Hz. rewrite (@dget_dset_fresh x y (data s) z Hd), (Hne z Hz). now apply H2.
+    - intros e He. destruct (In_dset _ _ _ _ He) as [->|He']; [exact Hv|now apply H4].
+  Qed.
+
+  Lemma Inv_t2 s x y : Inv s -> dget x (data s) = None -> is_vec y = vec ->
     Inv (update_scale (t1 (t0 s x y) x) x y).
   Proof.
-    intros (H1 & H2 & H3) Hd Hb Hv.
+    intros (H1 & H2 & H3 & H4) Hd Hv.
     set (s1 := t1 (t0 s x y) x).
     destruct (update_scale_core s1 x y) as [En Ed].
     unfold Inv. rewrite En, Ed. cbn [s1 t1 t0 nb data].
-    split; [|split].
-    - intros z Hz. destruct (In_insert _ _ _ Hz) as [->|Hz']; [exact Hb|now apply H1].
+    split; [|split; [|split]].
+    - intros z Hz. rewrite (@dget_dset_fresh x y (data s) z Hd).
+      destruct (eqb z x) eqn:E; [discriminate|].
+      destruct (In_insert _ _ _ Hz) as [->|Hz']; [now rewrite (eqb_refl OL) in E|now apply H1].
     - intros z yz Hz. rewrite (@dget_dset_fresh x y (data s) z Hd). rewrite spread_upd.
       destruct (eqb z x) eqn:E.
       + intros [= <-]. split; [apply absorbed_new|reflexivity].
@@ -814,6 +831,7 @@ Section Scale.
         destruct H3 as [H3|H3]; [rewrite H3 in Hz'; destruct Hz'|].
         apply absorbed_keep; [|exact Ha]. change (bby s1) with (bby s). now rewrite Hv.
     - right. rewrite bshape_upd. now rewrite Hv.
+    - intros e He. destruct (In_dset _ _ _ _ He) as [->|He']; [exact Hv|now apply H4].
   Qed.
 
   Lemma tell_sc s x y : Inv s -> is_vec y = vec ->
@@ -825,7 +843,7 @@ Section Scale.
     rewrite in_bounds_sc, t0_sc. destruct (in_bounds P x) eqn:Hb; cbn [negb].
     2:{ split; [reflexivity|now apply Inv_t0]. }
     cbv zeta. rewrite t1_sc, update_scale_sc.
-    assert (HI2 := @Inv_t2 s x y HI Hd Hb Hv).
+    assert (HI2 := @Inv_t2 s x y HI Hd Hv).
     set (s2 := update_scale (t1 (t0 s x y) x) x y) in *.
     rewrite (@update_losses_sc _ x true HI2).
     assert (HI3 : Inv (update_losses P s2 x true)) by (eapply Inv_core; [apply update_losses_core|exact HI2]).
@@ -1104,7 +1122,7 @@ Section Scale.
     now rewrite (sx_sub SL), (sy_zero SL), (sy_inf SL), (sy_neg_inf SL).
   Qed.
   Lemma Inv_init : Inv (init P).
-  Proof. split; [intros z []|split; [intros z yz []|now left]]. Qed.
+  Proof. split; [intros z []|split; [intros z yz []|split; [now left|intros e []]]]. Qed.
 
   (* The simulation theorem: for every history whose tell_many operations take
      the incremental path, the scaled learner run on the scaled history is, at
@@ -1117,6 +1135,329 @@ Section Scale.
     /\ forall real, loss sc_P (run sc_P (init sc_P) (map sc_op h)) real = loss P (run P (init P) h) real.
   Proof.
     intros Hl. rewrite init_sc. destruct (run_sc h Inv_init Hl) as (E1 & E2 & _).
+    split; [exact E1|split; [exact E2|]]. intros real. rewrite E1. apply loss_sc.
+  Qed.
+
+
+  (* ================================================================== *)
+  (* tell_many, batch path.  The bounding box of the values is recomputed with
+     NaN-propagating minima (values.min(axis=0)); the "all values equal"
+     invariant is re-established here for number structures without NaN. *)
+  Notation batch_combined := (batch_combined ltb eqb inf).
+  Notation np_min2 := (np_min2 ltb is_nan).
+  Notation np_max2 := (np_max2 ltb is_nan).
+  Notation wrap_like := (wrap_like zero).
+
+  Definition b_data s (xys : list (num * Y)) := fold_left (fun d xy => dset (fst xy) (snd xy) d) xys (data s).
+  Definition b_pend s (xys : list (num * Y)) := fold_left (fun p xy => remove (fst xy) p) xys (pend s).
+  Definition b_s1 s (xys : list (num * Y)) : st :=
+    let data' := b_data s xys in
+    let pend' := b_pend s xys in
+    let points := map fst data' in
+    let comb := merge_sorted (length pend' + length points) pend' points in
+    let bx := (match comb with x :: _ => x | [] => zero end, last_num comb zero) in
+    let ys := map snd data' in
+    let y0 := match ys with y :: _ => y | [] => YS zero end in
+    let mn := col_fold np_min2 ys in let mx := col_fold np_max2 ys in
+    let sx' := sub (snd bx) (fst bx) in
+    let sy' := arr_max (map2 sub mx mn) in
+    mk data' pend' points comb [] [] bx (wrap_like y0 mn, wrap_like y0 mx) sx' sy' sy' sx'.
+  Definition b_l (Q : params) s1 : list (ival * num) :=
+    fold_left (fun m iv => lset iv (get_loss Q s1 (fst iv) (snd iv)) m) (pairs (nb s1)) [].
+  Definition b_fin (Q : params) s3 (ti : list ival) : st :=
+    fold_left (fun s iv => match lget iv (los s) with Some _ => update_interp Q s iv | None => s end) ti s3.
+
+  Lemma tell_many_batch_eq (Q : params) s xys :
+    tell_many_batch Q s xys =
+    let s1 := b_s1 s xys in
+    let l := b_l Q s1 in
+    let s2 := with_los s1 l [] in
+    let cb := batch_combined (pairs (nbc s1)) s2 [] [] in
+    b_fin Q (with_los s2 l (fst cb)) (snd cb).
+  Proof.
+    unfold L1D.tell_many_batch, b_s1, b_l, b_fin, b_data, b_pend. cbv zeta. cbn [nb nbc].
+    match goal with |- context [let '(lc, ti) := ?bc in _] => destruct bc as [lc ti] end.
+    reflexivity.
+  Qed.
+
+  Lemma fold_dset_sc (xys : list (num * Y)) (d : list (num * Y)) :
+    fold_left (fun d xy => dset (fst xy) (snd xy) d) (map sc_d xys) (map sc_d d)
+    = map sc_d (fold_left (fun d xy => dset (fst xy) (snd xy) d) xys d).
+  Proof.
+    revert d; induction xys as [|[x y] xys IH]; intros d; cbn [fold_left map sc_d fst snd]; [reflexivity|].
+    now rewrite dset_sc, IH.
+  Qed.
+  Lemma fold_remove_sc (xys : list (num * Y)) (p : list num) :
+    fold_left (fun p xy => remove (fst xy) p) (map sc_d xys) (map sx_ p)
+    = map sx_ (fold_left (fun p xy => remove (fst xy) p) xys p).
+  Proof.
+    revert p; induction xys as [|[x y] xys IH]; intros p; cbn [fold_left map sc_d fst snd]; [reflexivity|].
+    now rewrite remove_sc, IH.
+  Qed.
+
+  Lemma np_min2_sy a b : np_min2 (sy_ a) (sy_ b) = sy_ (np_min2 a b).
+  Proof. unfold L1D.np_min2. rewrite !(sy_is_nan SL), (sy_ltb SL). destruct (is_nan a), (is_nan b), (ltb b a); reflexivity. Qed.
+  Lemma np_max2_sy a b : np_max2 (sy_ a) (sy_ b) = sy_ (np_max2 a b).
+  Proof. unfold L1D.np_max2. rewrite !(sy_is_nan SL), (sy_ltb SL). destruct (is_nan a), (is_nan b), (ltb a b); reflexivity. Qed.
+
+  Lemma y_components_sc y : y_components (ymap sy_ y) = map sy_ (y_components y).
+  Proof. now destruct y. Qed.
+
+  Lemma col_fold_sc (f : num -> num -> num) (H : forall a b, f (sy_ a) (sy_ b) = sy_ (f a b)) (ys : list Y) :
+    col_fold f (map (ymap sy_) ys) = map sy_ (col_fold f ys).
+  Proof.
+    destruct ys as [|y ys]; [reflexivity|]. unfold L1D.col_fold. cbn [map]. rewrite y_components_sc.
+    generalize (y_components y) as acc. induction ys as [|y' ys IH]; intros acc; cbn [fold_left map]; [reflexivity|].
+    rewrite y_components_sc, (map2_map f sy_ H). apply IH.
+  Qed.
+
+  Lemma wrap_like_sc y (m : list num) : wrap_like (ymap sy_ y) (map sy_ m) = ymap sy_ (wrap_like y m).
+  Proof. destruct y, m; cbn [L1D.wrap_like ymap map]; try reflexivity. now rewrite (sy_zero SL). Qed.
+
+  Lemma last_num_sc0 l : last_num (map sx_ l) zero = sx_ (last_num l zero).
+  Proof. rewrite <- (sx_zero SL) at 1. apply last_num_sc. Qed.
+
+  Lemma b_s1_sc s xys : b_s1 (sc_st s) (map sc_d xys) = sc_st (b_s1 s xys).
+  Proof.
+    unfold b_s1, b_data, b_pend. cbv zeta.
+    replace (data (sc_st s)) with (map sc_d (data s)) by reflexivity.
+    replace (pend (sc_st s)) with (map sx_ (pend s)) by reflexivity.
+    rewrite fold_dset_sc, fold_remove_sc.
+    set (d' := fold_left _ xys (data s)). set (p' := fold_left _ xys (pend s)).
+    replace (map fst (map sc_d d')) with (map sx_ (map fst d')) by (now rewrite !map_map).
+    replace (map snd (map sc_d d')) with (map (ymap sy_) (map snd d')) by (now rewrite !map_map).
+    rewrite !map_length, merge_sorted_sc.
+    set (comb := merge_sorted _ p' (map fst d')).
+    rewrite (col_fold_sc _ np_min2_sy), (col_fold_sc _ np_max2_sy).
+    replace (match map (ymap sy_) (map snd d') with y :: _ => y | [] => YS zero end)
+      with (ymap sy_ (match map snd d' with y :: _ => y | [] => YS zero end))
+      by (destruct (map snd d'); cbn [map ymap]; [now rewrite (sy_zero SL)|reflexivity]).
+    rewrite !wrap_like_sc, (map2_map _ _ (sy_sub SL)), arr_max_sy.
+    replace (match map sx_ comb with x :: _ => x | [] => zero end)
+      with (sx_ (match comb with x :: _ => x | [] => zero end))
+      by (destruct comb; cbn [map]; [apply (sx_zero SL)|reflexivity]).
+    rewrite last_num_sc0. cbn [fst snd]. rewrite (sx_sub SL). reflexivity.
+  Qed.
+
+  Lemma b_l_sc s1 : Inv s1 -> b_l sc_P (sc_st s1) = map sc_e (b_l P s1).
+  Proof.
+    intros HI. unfold b_l. replace (nb (sc_st s1)) with (map sx_ (nb s1)) by reflexivity.
+    rewrite pairs_sc. change (@nil (ival * num)) with (map sc_e []) at 1.
+    generalize (@nil (ival * num)) as m. generalize (pairs (nb s1)) as ivs.
+    induction ivs as [|iv ivs IH]; intros m; cbn [fold_left map]; [reflexivity|].
+    change (fst (sc_iv iv)) with (sx_ (fst iv)). change (snd (sc_iv iv)) with (sx_ (snd iv)).
+    rewrite (get_loss_sc (fst iv) (snd iv) HI), lset_sc. apply IH.
+  Qed.
+
+  Lemma batch_combined_sc (ivs : list ival) s (lc : list (ival * num)) (ti : list ival) :
+    batch_combined (map sc_iv ivs) (sc_st s) (map sc_e lc) (map sc_iv ti)
+    = (map sc_e (fst (batch_combined ivs s lc ti)), map sc_iv (snd (batch_combined ivs s lc ti))).
+  Proof.
+    revert lc ti; induction ivs as [|iv ivs IH]; intros lc ti; cbn [L1D.batch_combined map fst snd].
+    - now rewrite map_rev.
+    - replace (los (sc_st s)) with (map sc_e (los s)) by reflexivity.
+      replace (nb (sc_st s)) with (map sx_ (nb s)) by reflexivity.
+      rewrite lget_sc. destruct (lget iv (los s)) as [v|].
+      + rewrite lset_sc. apply IH.
+      + rewrite lset_sc.
+        destruct ti as [|[a b] rest]; cbn [map].
+        * apply (IH _ [iv]).
+        * change (sc_iv (a, b)) with (sx_ a, sx_ b). change (fst (sc_iv iv)) with (sx_ (fst iv)).
+          change (snd (sc_iv iv)) with (sx_ (snd iv)). cbv iota beta. rewrite (sx_eqb SL), mem_sc.
+          destruct (eqb b (fst iv) && negb (mem b (nb s))).
+          -- apply (IH _ ((a, snd iv) :: rest)).
+          -- apply (IH _ (iv :: (a, b) :: rest)).
+  Qed.
+
+  Lemma b_fin_sc ti s3 : Inv s3 ->
+    b_fin sc_P (sc_st s3) (map sc_iv ti) = sc_st (b_fin P s3 ti) /\ same_core s3 (b_fin P s3 ti).
+  Proof.
+    unfold b_fin. revert s3; induction ti as [|iv ti IH]; intros s3 HI; cbn [fold_left map].
+    - split; [reflexivity|apply same_core_refl].
+    - replace (los (sc_st s3)) with (map sc_e (los s3)) by reflexivity. rewrite lget_sc.
+      destruct (lget iv (los s3)).
+      + rewrite (update_interp_sc iv HI).
+        assert (HI' : Inv (update_interp P s3 iv)) by (eapply Inv_core; [apply update_interp_core|exact HI]).
+        destruct (IH _ HI') as [E C]. split; [exact E|].
+        eapply same_core_trans; [apply update_interp_core|exact C].
+      + now apply IH.
+  Qed.
+
+  Lemma tell_many_batch_sc s xys : Inv (b_s1 s xys) ->
+    tell_many_batch sc_P (sc_st s) (map sc_d xys) = sc_st (tell_many_batch P s xys)
+    /\ Inv (tell_many_batch P s xys).
+  Proof.
+    intros HI1. rewrite !tell_many_batch_eq. cbv zeta. rewrite b_s1_sc.
+    set (s1 := b_s1 s xys) in *.
+    rewrite (b_l_sc HI1).
+    set (l := b_l P s1).
+    change (with_los (sc_st s1) (map sc_e l) []) with (sc_st (with_los s1 l [])).
+    set (s2 := with_los s1 l []).
+    replace (nbc (sc_st s1)) with (map sx_ (nbc s1)) by reflexivity.
+    rewrite pairs_sc.
+    pose proof (batch_combined_sc (pairs (nbc s1)) s2 [] []) as B. cbn [map] in B. rewrite B. cbn [fst snd].
+    set (cb := batch_combined (pairs (nbc s1)) s2 [] []).
+    rewrite with_los_sc.
+    assert (HI3 : Inv (with_los s2 l (fst cb))).
+    { eapply Inv_core; [|exact HI1]. repeat split. }
+    destruct (b_fin_sc (snd cb) HI3) as [E C]. split; [exact E|].
+    eapply Inv_core; [exact C|exact HI3].
+  Qed.
+
+  (* ---- the invariant after the batch path, for number structures without NaN ---- *)
+  Hypothesis NoNaN : forall a, is_nan a = false.
+
+  Lemma np_min2_pmin a b : np_min2 a b = pmin a b.
+  Proof. unfold L1D.np_min2, L1D.pmin. now rewrite !NoNaN. Qed.
+  Lemma np_max2_pmax a b : np_max2 a b = pmax a b.
+  Proof. unfold L1D.np_max2, L1D.pmax. now rewrite !NoNaN. Qed.
+  Lemma absc_iff a b w : absc a b w <-> ltb w a = false /\ ltb b w = false.
+  Proof.
+    unfold absc. rewrite !NoNaN. split.
+    - intros [H|(_ & _ & H1 & H2)]; [discriminate|now split].
+    - intros [H1 H2]. right. now repeat split.
+  Qed.
+  Lemma absc_keep2 a b v w : absc a b w -> absc (np_min2 a v) (np_max2 b v) w.
+  Proof.
+    rewrite !absc_iff, np_min2_pmin, np_max2_pmax. intros [H1 H2].
+    split; [now apply ltb_pmin_keep|now apply ltb_pmax_keep].
+  Qed.
+  Lemma absc_new2 a b v : absc (np_min2 a v) (np_max2 b v) v.
+  Proof. rewrite absc_iff, np_min2_pmin, np_max2_pmax. split; [apply ltb_pmin_new|apply ltb_pmax_new]. Qed.
+  Lemma absv_keep2 mn mx vs ws : absv mn mx ws -> absv (map2 np_min2 mn vs) (map2 np_max2 mx vs) ws.
+  Proof.
+    revert mx vs ws; induction mn as [|a mn IH]; intros [|b mx] [|v vs] [|w ws]; cbn [absv L1D.map2]; auto.
+    intros [H1 H2]. split; [now apply absc_keep2|now apply IH].
+  Qed.
+  Lemma absv_new2 mn mx vs : absv (map2 np_min2 mn vs) (map2 np_max2 mx vs) vs.
+  Proof.
+    revert mx vs; induction mn as [|a mn IH]; intros [|b mx] [|v vs]; cbn [absv L1D.map2]; auto.
+    split; [apply absc_new2|apply IH].
+  Qed.
+
+  Definition cf (f : num -> num -> num) (acc : list num) (rest : list Y) : list num :=
+    fold_left (fun acc y' => map2 f acc (y_components y')) rest acc.
+  Lemma col_fold_cf f y (ys : list Y) : col_fold f (y :: ys) = cf f (y_components y) ys.
+  Proof. reflexivity. Qed.
+
+  Lemma col_keep (rest : list Y) mn mx ws :
+    absv mn mx ws -> absv (cf np_min2 mn rest) (cf np_max2 mx rest) ws.
+  Proof.
+    revert mn mx; induction rest as [|y rest IH]; intros mn mx H; cbn [cf fold_left]; [exact H|].
+    apply IH. now apply absv_keep2.
+  Qed.
+  Lemma col_new (rest : list Y) mn mx y :
+    In y rest -> absv (cf np_min2 mn rest) (cf np_max2 mx rest) (y_components y).
+  Proof.
+    revert mn mx; induction rest as [|y' rest IH]; intros mn mx; [intros []|].
+    intros [H|H]; cbn [cf fold_left].
+    - subst y'. apply col_keep. apply absv_new2.
+    - now apply IH.
+  Qed.
+  Lemma col_fold_abs (ys : list Y) y :
+    In y ys -> absv (col_fold np_min2 ys) (col_fold np_max2 ys) (y_components y).
+  Proof.
+    destruct ys as [|y0 ys]; [intros []|]. rewrite !col_fold_cf. intros [H|H].
+    - subst y0. apply col_keep. apply absv_self.
+    - now apply col_new.
+  Qed.
+
+  Lemma cf_scalar f (rest : list Y) a :
+    (forall y, In y rest -> is_vec y = false) -> exists m, cf f [a] rest = [m].
+  Proof.
+    revert a; induction rest as [|y rest IH]; intros a H; cbn [cf fold_left]; [now exists a|].
+    destruct y as [v|vs]; [|now specialize (H (YV vs) (or_introl eq_refl))].
+    cbn [y_components L1D.map2]. apply IH. intros y Hy. apply H. now right.
+  Qed.
+
+  Lemma dget_In z (d : list (num * Y)) yz : dget z d = Some yz -> exists k, In (k, yz) d.
+  Proof.
+    induction d as [|[k v] d IH]; cbn [L1D.dget]; [discriminate|].
+    destruct (eqb z k).
+    - intros [= <-]. exists k. now left.
+    - intros H. destruct (IH H) as [k' Hk]. exists k'. now right.
+  Qed.
+  Lemma dget_fst_ne z (d : list (num * Y)) : In z (map fst d) -> dget z d <> None.
+  Proof.
+    induction d as [|[k v] d IH]; cbn [L1D.dget map fst In]; [intros []|].
+    intros [H|H].
+    - subst k. now rewrite (eqb_refl OL).
+    - destruct (eqb z k); [discriminate|now apply IH].
+  Qed.
+  Lemma In_fold_dset e (xys d : list (num * Y)) :
+    In e (fold_left (fun d xy => dset (fst xy) (snd xy) d) xys d) -> In e d \/ In e xys.
+  Proof.
+    revert d; induction xys as [|[x y] xys IH]; intros d; cbn [fold_left fst snd]; [auto|].
+    intros H. destruct (IH _ H) as [H'|H']; [|right; now right].
+    destruct (In_dset _ _ _ _ H') as [->|H'']; [right; now left|now left].
+  Qed.
+
+  Lemma Inv_b_s1 s xys : Inv s -> ys_shape xys -> Inv (b_s1 s xys).
+  Proof.
+    intros (_ & _ & _ & H4) Hs.
+    assert (Hshape : forall e, In e (b_data s xys) -> is_vec (snd e) = vec).
+    { intros e He. destruct (In_fold_dset _ _ _ He) as [H|H]; [now apply H4|now apply Hs]. }
+    unfold Inv, b_s1. cbv zeta. cbn [nb data bby sy].
+    set (d' := b_data s xys) in *.
+    assert (Hys : forall y, In y (map snd d') -> is_vec y = vec).
+    { intros y Hy. apply in_map_iff in Hy. destruct Hy as [e [<- He]]. now apply Hshape. }
+    split; [|split; [|split; [|exact Hshape]]].
+    - intros z Hz. now apply dget_fst_ne.
+    - intros z yz _ Hd. destruct (dget_In _ _ Hd) as [k Hk].
+      assert (Hin : In yz (map snd d')) by (apply in_map_iff; exists (k, yz); now split).
+      pose proof (col_fold_abs _ _ Hin) as Habs.
+      destruct (map snd d') as [|y0 ys] eqn:Eys; [destruct Hin|].
+      pose proof (Hys y0 (or_introl eq_refl)) as Hv0. pose proof (Hys yz Hin) as Hvz.
+      destruct y0 as [v0|vs0], yz as [w|ws]; cbn [is_vec] in Hv0, Hvz; try congruence.
+      + destruct (@cf_scalar np_min2 ys v0) as [m1 E1].
+        { intros y Hy. rewrite (Hys y (or_intror Hy)). now rewrite <- Hv0. }
+        destruct (@cf_scalar np_max2 ys v0) as [m2 E2].
+        { intros y Hy. rewrite (Hys y (or_intror Hy)). now rewrite <- Hv0. }
+        rewrite !col_fold_cf in *. cbn [y_components] in *. rewrite E1, E2 in *.
+        cbn [L1D.wrap_like absorbed spread L1D.map2 L1D.arr_max L1D.npmax absv] in *.
+        split; [|reflexivity]. now apply absc_iff.
+      + cbn [L1D.wrap_like absorbed spread y_components] in *. split; [exact Habs|reflexivity].
+    - destruct d' as [|[k0 y0] d'']; [now left|right]. cbn [map snd].
+      assert (is_vec y0 = vec) as <- by (apply (Hys y0); now left).
+      now destruct y0.
+  Qed.
+
+  (* ---------------- all histories ---------------- *)
+  Fixpoint shaped (h : list (op num)) : Prop :=
+    match h with [] => True | o :: h' => op_shape o /\ shaped h' end.
+
+  Lemma step_sc_full s o : Inv s -> op_shape o ->
+    step sc_P (sc_st s) (sc_op o) = (sc_st (fst (step P s o)), sc_out (snd (step P s o)))
+    /\ Inv (fst (step P s o)).
+  Proof.
+    intros HI Hs. destruct (takes_batch s o) eqn:Hb; [|now apply step_sc].
+    destruct o as [x y|x|xys force| |n c]; try discriminate.
+    cbn [L1D.step sc_op fst snd]. unfold L1D.tell_many. cbn [takes_batch] in Hb. apply negb_true_iff in Hb.
+    replace (data (sc_st s)) with (map sc_d (data s)) by reflexivity.
+    rewrite !map_length, Hb.
+    destruct (@tell_many_batch_sc s xys (@Inv_b_s1 s xys HI Hs)) as [E HI']. rewrite E. now split.
+  Qed.
+
+  Lemma run_sc_full h : forall s, Inv s -> shaped h ->
+    run sc_P (sc_st s) (map sc_op h) = sc_st (run P s h)
+    /\ trace sc_P (sc_st s) (map sc_op h) = map sc_out (trace P s h)
+    /\ Inv (run P s h).
+  Proof.
+    induction h as [|o h IH]; intros s HI Hl; [split; [reflexivity|split; [reflexivity|exact HI]]|].
+    destruct Hl as (Hs & Hl).
+    destruct (@step_sc_full s o HI Hs) as [E HI'].
+    cbn [map trace]. rewrite !run_cons, E. cbn [fst snd].
+    destruct (IH _ HI' Hl) as (E1 & E2 & E3). rewrite E1, E2. split; [reflexivity|split; [reflexivity|exact E3]].
+  Qed.
+
+  (* The full statement, for number structures without NaN: every history in
+     which the learnt function returns either always scalars or always vectors. *)
+  Theorem l1d_scale_equivariant_full h : shaped h ->
+    run sc_P (init sc_P) (map sc_op h) = sc_st (run P (init P) h)
+    /\ trace sc_P (init sc_P) (map sc_op h) = map sc_out (trace P (init P) h)
+    /\ forall real, loss sc_P (run sc_P (init sc_P) (map sc_op h)) real = loss P (run P (init P) h) real.
+  Proof.
+    intros Hl. rewrite init_sc. destruct (run_sc_full h Inv_init Hl) as (E1 & E2 & _).
     split; [exact E1|split; [exact E2|]]. intros real. rewrite E1. apply loss_sc.
   Qed.
 
